@@ -278,8 +278,41 @@ def run(ctx):
                 ctx.violation('correspondence-broken', 'scalar %r (pre3=%s): model %r, implementation %r' % (s, pre3, mr, got),
                               {'component': 'jparse_str', 'scalar': s})
                 corr = True
+    # dense sweep of fractional seconds in times and date-times: every digit count, values at which binary floating
+    # point would round differently from the decimal digits
+    nfrac = 6000 if thorough else 900
+    fr = []
+    for _ in range(nfrac):
+        nd = rng.choice([1, 2, 3, 4, 5, 6, 6, 6, 6])
+        fr.append(''.join(rng.choice('0123456789') for _ in range(nd)))
+    fr += ['000249', '000251', '999999', '000001', '100000', '5', '25', '125', '0001', '00001']
+    scal = []
+    for f in fr:
+        hh, mm, ss = rng.randint(0, 23), rng.randint(0, 59), rng.randint(0, 59)
+        us = int(f.ljust(6, '0'))
+        scal.append(('h:%02d:%02d:%02d.%s' % (hh, mm, ss, f), ('time', hh, mm, ss, us, False)))
+        if rng.random() < 0.3:
+            scal.append(('t:2021-03-04T%02d:%02d:%02d.%sZ UTC' % (hh, mm, ss, f), ('dt-frac', hh, mm, ss, us)))
+    answers = ctx.model.ask_parallel([[codec.Sym('jparse'), False, codec.json_to_wire(t)] for t, _ in scal])
+    for (t, want), m in zip(scal, answers):
+        ctx.coverage['evaluations'] += 1
+        ctx.count('fractional-seconds')
+        try:
+            v = h.parse_scalar(json.dumps(t), mode=h.MODE_JSON)
+        except Exception as e:  # noqa
+            ctx.violation('impl-counterexample', 'the scalar %r was rejected with %s' % (t, type(e).__name__), {'scalar': t})
+            return
+        got = ('time', v.hour, v.minute, v.second, v.microsecond, False) if want[0] == 'time' else ('dt-frac', v.hour, v.minute, v.second, v.microsecond)
+        if got != want:
+            ctx.violation('impl-counterexample', 'the scalar %r was decoded as %r, it denotes %r' % (t, got, want), {'scalar': t})
+            return
+        if want[0] == 'time' and not corr:
+            mr = codec.model_result(m)
+            if mr != ('ok', codec.canon(v)):
+                ctx.violation('correspondence-broken', 'scalar %r: model %r, implementation %r' % (t, mr, codec.canon(v)), {'component': 'jparse_str', 'scalar': t})
+                corr = True
     ctx.sample({'document': sorted(seen, key=len)[len(seen) // 2][:1500]})
-    ctx.coverage['distinct_nontrivial'] = len(seen)
+    ctx.coverage['distinct_nontrivial'] = len(seen) + len(set(t for t, _ in scal))
 
 
 def _diff(a, b):
